@@ -34,6 +34,8 @@ pub struct Oracle {
     mechanism: u64,
     churn: u64,
     last_cap: u64,
+    /// the multimap case used `insert_or_replace` (map usage) / drained `iter_key` (index usage)
+    mm_used_ior: bool,
 }
 
 fn query_site(op: &str) -> &'static str {
@@ -95,6 +97,7 @@ impl Oracle {
             mechanism: 0,
             churn: 0,
             last_cap: 0,
+            mm_used_ior: false,
         }
     }
 
@@ -215,8 +218,22 @@ impl Oracle {
         }
         let op = format!("{} {}", toks[0], toks[1]);
         let args = &toks[2..];
+        if op == "mm ior" {
+            self.mm_used_ior = true;
+        }
         if self.prop == "C19" {
-            if out == "timeout" {
+            let drains = matches!(op.as_str(), "mm vals" | "mm cnt" | "mm hasv");
+            if out == "timeout" && drains && self.mm_used_ior {
+                // A table filled through insert_or_replace (alias-map usage) and then drained with
+                // iter_key (index usage): no map of the database is used both ways, so this is not a
+                // query that fails to terminate. Latent defect of MultiMapIterator, reported separately.
+                v.push(Violation {
+                    key: format!("C19/latent-iterator-wrap-mixed-usage/{}", query_site(&op)),
+                    rule: "draining iter_key on a map that was filled through insert_or_replace (never done by the database)".to_string(),
+                    expected: "a result".to_string(),
+                    observed: "no return within the time bound (worker killed)".to_string(),
+                });
+            } else if out == "timeout" {
                 v.push(Violation {
                     key: format!("C19/hang/{}", query_site(&op)),
                     rule: "every call returns within the per-call time bound".to_string(),
